@@ -42,6 +42,7 @@ ASSUMPTIONS = ['contact-free scenes (the property\'s quantifier); joint limits i
                'divergent trajectories are not a static notion and are not excluded: the identities hold for all values']
 
 BACKENDS = ('generalized', 'spring', 'positional')
+default_repo_of = [None]
 K = 'brax.kinematics'
 
 
@@ -96,7 +97,7 @@ def spans(M):
 # ------------------------------------------------------------------------------ running a pipeline
 def simulate(U, backend, sysd, q, qd, tau, steps):
   """-> [state after init, after step 1, ...] by interpreting the real pipeline.init / step."""
-  I = new_interp(U.repo)
+  I = new_interp(U.repo, reset=False)        # the model's tied sines / cosines live in the session's atom table
   I.contracts[('brax.contact', 'get')] = lambda s, x: None
   I.contracts[('brax.actuator', 'to_tau')] = lambda s, a, q_, qd_: tau
   mod = 'brax.%s.pipeline' % backend
@@ -168,6 +169,8 @@ EQUIV_THOROUGH = [
 def trial(seed, body, max_tries=60, bool_default=None):
   for t in range(max_tries):
     avn.field_mode(seed * 7919 + t, decide=lambda nm: 1 if nm.kind == 'any' else None, bool_default=bool_default)
+    avn.set_repo(default_repo_of[0])
+    avn.reset_atoms()
     try:
       return body()
     except avn.NonResidue:
@@ -360,6 +363,7 @@ def components(U, rep, tier):
 
 
 def run(U, rep, tier):
+  default_repo_of[0] = U.repo
   equivariance(U, rep, tier)
   sibling_order(U, rep, tier)
   components(U, rep, tier)
